@@ -377,21 +377,21 @@ class ProcessRunner(Runner, ABC):
         # before reporting those tasks as done.
         self._consume_log_queue()
         for future in done:
-            task = self.future_to_task[future]
+            # Stop tracking the future before reporting it, so that
+            # it can never be reported twice if the caller is
+            # interrupted while iterating.
+            task = self.future_to_task.pop(future)
             if future.cancelled:
                 continue
             try:
                 task_result = future.result()
+            except KeyboardInterrupt:
+                raise
             except BaseException as ex:
                 yield (task, ex)
             else:
                 self.results_map[task] = task_result
                 yield (task, task_result.meta)
-        self.future_to_task = {
-            future: self.future_to_task[future]
-            for future in self.future_to_task
-            if future not in done
-        }
 
     def cancel(self) -> None:
         self.executor.cancel()
